@@ -22,24 +22,30 @@ def unparse(n):
 
 
 def negate(expr):
-    """syntactic negation, pushed into a single comparison / through `not`"""
+    """syntactic negation: through `not`, into a comparison, and by De Morgan into and / or chains
+    (operand order, hence short-circuit order, is preserved)"""
     if isinstance(expr, ast.UnaryOp) and isinstance(expr.op, ast.Not):
-        return expr.operand
+        return simplify(expr.operand)
     if isinstance(expr, ast.Compare) and len(expr.ops) == 1:
         return ast.Compare(left=expr.left, ops=[NEG[type(expr.ops[0])]()], comparators=expr.comparators)
+    if isinstance(expr, ast.BoolOp):
+        op = ast.Or() if isinstance(expr.op, ast.And) else ast.And()
+        return ast.BoolOp(op=op, values=[negate(v) for v in expr.values])
     return ast.UnaryOp(op=ast.Not(), operand=expr)
 
 
 def simplify(expr):
-    """`not (a == b)` -> `a != b`, `not not x` -> `x`"""
-    while isinstance(expr, ast.UnaryOp) and isinstance(expr.op, ast.Not):
+    """push negations inwards: `not (a == b)` -> `a != b`, `not not x` -> `x`,
+    `not (a and b)` -> `not a or not b` (De Morgan), recursively inside and / or chains"""
+    if isinstance(expr, ast.UnaryOp) and isinstance(expr.op, ast.Not):
         inner = expr.operand
-        if isinstance(inner, ast.Compare) and len(inner.ops) == 1:
-            return negate(inner)
+        if isinstance(inner, (ast.Compare, ast.BoolOp)) and not (isinstance(inner, ast.Compare) and len(inner.ops) != 1):
+            return negate(simplify(inner))
         if isinstance(inner, ast.UnaryOp) and isinstance(inner.op, ast.Not):
-            expr = inner.operand
-            continue
-        break
+            return simplify(inner.operand)
+        return expr
+    if isinstance(expr, ast.BoolOp):
+        return ast.BoolOp(op=expr.op, values=[simplify(v) for v in expr.values])
     return expr
 
 
